@@ -185,9 +185,19 @@ for _line_name, _line in (('hash', b'#\r\n'), ('text', b'Welcome to this host\r\
 
 SHAPE_NAMES = sorted(SHAPES)
 SCALES = (1, 2, 4, 8, 16)
+NEST_MARGINAL_GROWTH = 1.6
 
 
 AUTO_SEPARATORS = (b'\r\n', b'; ', b';', b', ', b',', b' ')
+# items no sample contains but a peer may send between separators: folded continuation lines, empty and blank items
+SYNTHETIC_ITEMS = {
+    b'\r\n': (b' x', b'\tx', b' ', b' a=b', b' "q"'),
+    b'; ': (b'', b' ', b'a=b', b'"q"'),
+    b';': (b'', b' ', b'a=b', b'"q"'),
+    b', ': (b'', b' ', b'"q"'),
+    b',': (b'', b' ', b'"q"'),
+    b' ': (b'', b'"q"', b'a=b'),
+}
 _AUTO_SHAPES = None
 _SWEEP_SEEDS = None
 SWEEP_MAX_LEN = 1024
@@ -223,7 +233,7 @@ def auto_shapes():
             if (path, sep) in seen_hosts:
                 continue            # one host per (class, separator): the first (usually richest) seed
             seen_hosts.add((path, sep))
-            for item in vocab.get((module, sep), [])[:60]:
+            for item in vocab.get((module, sep), [])[:60] + list(SYNTHETIC_ITEMS.get(sep, ())):
                 shapes.append((path, raw.hex(), sep.hex(), 0, item.hex()))
                 if sep == b'\r\n':
                     # the same lines ended by a bare LF / CR, as a sloppy or hostile peer sends them
@@ -236,6 +246,85 @@ def auto_shapes():
 def build_auto(raw, sep, idx, count, item=None):
     parts = raw.split(sep)
     return sep.join(parts[:idx + 1] + [parts[idx] if item is None else item] * count + parts[idx + 1:])
+
+
+_NEST_SHAPES = None
+NEST_INNER = ('valid', 'badname', 'trunc')
+
+
+def nest_shapes():
+    """Recursion points of the formats: a length-prefixed span of an accepted binary seed whose content is itself
+    accepted by the seed's class or by a variant parser of the same module (e.g. the signature key inside an
+    OpenSSH certificate is a host key blob, which may be a certificate again).  [(class path, seed hex, offset of
+    the 4- or 2-octet length prefix, prefix size), ...]"""
+    global _NEST_SHAPES  # pylint: disable=global-statement
+    if _NEST_SHAPES is None:
+        variants = {}
+        for path in corpus.class_paths():
+            if path.endswith('Variant'):
+                variants.setdefault(path.rsplit('.', 1)[0], []).append(corpus.resolve(path))
+        shapes = []
+        for path in corpus.class_paths():
+            cls = corpus.resolve(path)
+            candidates = [cls] + variants.get(path.rsplit('.', 1)[0], [])
+            for raw in corpus.accepted(path)[:4]:
+                if wirefault.is_text(raw) or not 16 <= len(raw) <= 1500:
+                    continue
+                found = 0
+                for size in (4, 2):
+                    for at in range(0, len(raw) - size - 8):
+                        length = int.from_bytes(raw[at:at + size], 'big')
+                        if not 8 <= length <= len(raw) - at - size or (at == 0 and length == len(raw) - size):
+                            continue
+                        inner = raw[at + size:at + size + length]
+                        for candidate in candidates:
+                            try:
+                                candidate.parse_exact_size(inner)
+                            except Exception:  # pylint: disable=broad-except
+                                continue
+                            shapes.append((path, raw.hex(), at, size))
+                            found += 1
+                            break
+                        if found >= 2:
+                            break
+                    if found >= 2:
+                        break
+        _NEST_SHAPES = shapes
+    return _NEST_SHAPES
+
+
+def build_nested(raw, at, size, depth, inner_kind):
+    """The seed nested inside its own length-prefixed span `depth` times; every length field in front of the span
+    that covers it is kept consistent.  The innermost span is the original content, the original content with its
+    first name made unknown, or a truncated copy."""
+    length = int.from_bytes(raw[at:at + size], 'big')
+    original = raw[at + size:at + size + length]
+    if inner_kind == 'valid':
+        blob = original
+    elif inner_kind == 'badname':
+        blob = bytearray(original)
+        for pos in range(min(len(blob) - 1, 12), 3, -1):      # an octet of the leading name
+            if 0x21 <= blob[pos] < 0x7f:
+                blob[pos] = 0x7e if blob[pos] != 0x7e else 0x21
+                break
+        blob = bytes(blob)
+    else:
+        blob = original[:max(1, len(original) // 2)]
+    limit = (1 << (8 * size)) - 1
+    for _ in range(depth):
+        delta = len(blob) - length
+        if len(blob) > limit:
+            break
+        out = bytearray(raw[:at] + len(blob).to_bytes(size, 'big') + blob + raw[at + size + length:])
+        if delta:
+            for field in (4, 3, 2):
+                for pos in range(0, at - field + 1):
+                    value = int.from_bytes(raw[pos:pos + field], 'big')
+                    if value and at + size + length <= pos + field + value <= len(raw) and \
+                            0 <= value + delta < (1 << (8 * field)) and (field == 4 or raw[pos] == 0 or value > 255):
+                        out[pos:pos + field] = (value + delta).to_bytes(field, 'big')
+        blob = bytes(out)
+    return blob
 
 
 def sweep_seeds():
@@ -254,6 +343,7 @@ def prepare(tier):  # pylint: disable=unused-argument
     workload.pools()
     stepclock.clock().install()
     auto_shapes()
+    nest_shapes()
     sweep_seeds()
     return {'phase': 'fuzz'}
 
@@ -282,6 +372,11 @@ def _generate(rng, index, tier, extra):
         path, raw_hex, sep_hex, idx, item_hex = shapes[pick % len(shapes)]
         return {'kind': 'autoscale', 'cls': path, 'hex': raw_hex, 'sep': sep_hex, 'at': idx, 'item': item_hex,
                 'engaged_only': tier == 'quick'}
+    if phase == 'nest':
+        shapes = nest_shapes()
+        path, raw_hex, at, size = shapes[(index // len(NEST_INNER)) % len(shapes)]
+        return {'kind': 'nestscale', 'cls': path, 'hex': raw_hex, 'at': at, 'size': size,
+                'inner': NEST_INNER[index % len(NEST_INNER)], 'quick': tier == 'quick'}
     if phase == 'sweep':
         path, raw_hex = sweep_seeds()[index]
         return {'kind': 'countsweep', 'cls': path, 'hex': raw_hex}
@@ -336,6 +431,8 @@ def execute(doc):
         _exec_autoscale(doc, res)
     elif kind == 'countsweep':
         _exec_countsweep(doc, res)
+    elif kind == 'nestscale':
+        _exec_nestscale(doc, res)
     else:
         raise core.HarnessError('unknown schedule kind %r' % kind)
     return res
@@ -505,6 +602,39 @@ def _exec_autoscale(doc, res):
     res.stats['scale.max_exponent_x100_bucket_%d' % int(max(tail or [0]) * 10)] += 1
 
 
+def _exec_nestscale(doc, res):
+    cls = corpus.resolve(doc['cls']) or core.get_class(doc['cls'])
+    raw = bytes.fromhex(doc['hex'])
+    series = []
+    for depth in ((2, 4, 8, 16) if doc.get('quick') else (2, 4, 8, 16, 32, 64)):
+        data = build_nested(raw, doc['at'], doc['size'], depth, doc['inner'])
+        if series and len(data) <= series[-1][0]:
+            break                   # the length prefix cannot hold a deeper nesting
+        steps, stack, status = _measure(cls, 'parse_immutable', data)
+        series.append((len(data), steps, stack, status))
+        _judge(res, cls.__name__, 'parse_immutable', len(data), steps, stack, status)
+        res.sim_events += 1
+    # every level costs a fixed amount however small it is, so the verdict is on the marginal cost per added byte
+    # (constant for linear work, doubling with every doubling of the depth for quadratic work)
+    marginal = [(b[1] - a[1]) / float(max(1, b[0] - a[0])) for a, b in zip(series, series[1:])]
+    tail = [0.0]
+    if len(marginal) >= 2 and marginal[0] > 0:
+        tail = [math.log2(max(marginal[-1], 1e-9) / marginal[0]) / max(1, len(marginal) - 1) + 1.0]
+        if series[-1][1] > 20000 and marginal[-1] > NEST_MARGINAL_GROWTH * marginal[0]:
+            res.violation((PROPERTY, 'superlinear', cls.__name__, 'nested', doc['inner']),
+                          'marginal cost per added byte grows by less than x%.1f from the first to the last doubling of '
+                          'the nesting depth' % NEST_MARGINAL_GROWTH,
+                          'seed nested inside its own span at offset %d (%s innermost) (%s): (len, steps) = %s marginal '
+                          'steps per byte = %s' % (doc['at'], doc['inner'], cls.__name__, [(s[0], s[1]) for s in series],
+                                                   ['%.1f' % m for m in marginal]))
+    res.note('nestscale', cls.__name__, [s[3] for s in series])
+    res.stats['runs.nestscale'] += 1
+    res.stats['probe.nesting_depth_8_or_more'] += len(series) >= 4
+    res.sched_sig = ('nestscale', cls.__name__, doc['at'], doc['inner'], tuple(s[3] for s in series))
+    res.nontrivial = True
+    res.stats['scale.max_exponent_x100_bucket_%d' % int(max(tail or [0]) * 10)] += 1
+
+
 def _exec_countsweep(doc, res):
     """Complete single-fault enumeration: every offset of the seed overwritten with a maximal 1/2/3/4-byte
     integer (a hostile length or count field wherever the format keeps one)."""
@@ -602,15 +732,17 @@ def check(tier, seed):
     began = time.time()
     me = __import__('simverif.props.c19', fromlist=['x'])
     extra = prepare(tier)
+    histories = core.history_batch(me, seed, tier, extra, scale=0.4, lengths=(4, 8, 16))      # first: this process has executed no run yet
     core.determinism_selftest(me, seed, tier, extra, count=40)
     n_runs, wall, scale_rounds, n_alloc = BUDGET[tier]
     scale = core.run_batch(me, seed, tier, len(SHAPE_NAMES) * scale_rounds, 600.0, {'phase': 'scale'}, chunk=1)
     n_auto = len(auto_shapes())
     auto = core.run_batch(me, seed, tier, n_auto, 1500.0, {'phase': 'autoscale'}, chunk=2)
     sweep = core.run_batch(me, seed, tier, len(sweep_seeds()), 900.0, {'phase': 'sweep'}, chunk=4)
+    nest = core.run_batch(me, seed, tier, len(nest_shapes()) * len(NEST_INNER), 600.0, {'phase': 'nest'}, chunk=1)
     fuzz = core.run_batch(me, seed, tier, n_runs, wall, extra)
     alloc = core.run_batch(me, seed, tier, n_alloc, 120.0, {'phase': 'alloc'})
-    batch = core.merge_batches([scale, auto, sweep, fuzz, alloc])
+    batch = core.merge_batches([scale, auto, sweep, nest, fuzz, alloc, histories])
     coverage = core.coverage_from_batch(
         batch, RULE, fault_kinds=wire.FAULT_KINDS,
         probes=('declared_length_over_2^24_with_little_data', 'scaled_input_over_16k', 'input_over_1k', 'depth_over_30'),
